@@ -73,6 +73,15 @@ def _surface(draw):
 def _cases(draw, tier):
     cfg = draw(G.layout_isa(zones=True, blocks=False))
     b, feats = G.general_program(draw, cfg, max_steps=20)
+    # macros are written like instructions and take part in the same surface rewrites
+    cfg['macros'] = {'push2': [{'operands': {'count': 1, 'operand_sets': {'list': ['imm8']}}, 'instructions': ['ldi @ARG(0)', 'nop']}],
+                     'clr2': [{'instructions': ['nop', 'nop']}]}
+    if b.zone() == 'GLOBAL' and b.room() >= 12 and not b.dead:
+        for _ in range(draw(st.integers(0, 3))):
+            b.items.append(draw(st.sampled_from([
+                {'t': 'instr', 'mn': 'push2', 'ops': [{'k': 'expr', 'e': ['num', draw(st.integers(0, 255)), 'dec']}]},
+                {'t': 'instr', 'mn': 'clr2', 'ops': []}, {'t': 'instr', 'mn': 'nop', 'ops': []},
+                {'t': 'instr', 'mn': 'ldi', 'ops': [{'k': 'expr', 'e': ['num', draw(st.integers(0, 255)), 'dec']}]}])))
     flat = list(G.flatten(b.items))
     surf = [draw(_surface()) for _ in flat]
     return {'isa': cfg, 'items': b.items, 'surface': surf, 'lo': b.lo}
